@@ -284,7 +284,7 @@ def main(argv):
             "distinct_nontrivial": len(distinct),
             "rule": "fault plans enumerated per program and output class (ENOSPC at boundary/seeded byte budgets, EIO at a write, failure only at close, failing open, directory in the way, failing mkdir, seeded subsets) plus the fault-free plan; non-trivial = a fault actually fired (F lines of the event log) ; distinct = distinct (program, plan, event-log hash)",
             "samples": [{"program": progs[cases[i][0]][0], "plan": cases[i][1]} for i in range(0, done, max(1, done // 4))][:5],
-            "programs": [p[0] for p in progs], "programs_skipped_not_compiling": skipped,
+            "programs": len(progs), "program_names": [p[0] for p in progs], "programs_skipped_not_compiling": skipped,
             "output_classes": classes,
             "plans_planned": len(cases), "plans_run": done,
             "faults_configured": configured, "faults_fired": fired_n,
